@@ -54,7 +54,13 @@ static RunOut run(am::communicator comm, const Csr<double> &Al, const std::vecto
     RunOut o;
     try {
         auto tup = std::make_tuple(static_cast<size_t>(Al.n), Al.ptr, Al.col, Al.val);
-        Solver S(comm, tup, prm);
+        // a setup exception that only some ranks see (the coarse direct solver factorises on its master rank) must not send
+        // the ranks into different collectives: agree on it before anybody applies the preconditioner
+        std::unique_ptr<Solver> Sp; bool bad = false; std::string w;
+        try { Sp.reset(new Solver(comm, tup, prm)); } catch (const std::exception &e) { bad = true; w = e.what(); }
+        int a = bad ? 1 : 0, b = 0; MPI_Allreduce(&a, &b, 1, MPI_INT, MPI_MAX, MPI_COMM_WORLD);
+        if (b) throw std::runtime_error(bad ? w : std::string("setup failed on another rank"));
+        Solver &S = *Sp;
         o.px.assign(Al.n, 0.0);
         S.precond().apply(fl, o.px);
         o.x.assign(Al.n, 0.0);
